@@ -512,7 +512,11 @@ Deliver(d, raise) ==
 DeliverAbort(d) ==
   /\ CanDeliver /\ d \in NextDests /\ nfaults < MaxFaults
   /\ offered' = [offered EXCEPT ![d] = Append(@, [m |-> Top.m, raised |-> TRUE])]
-  /\ work' = <<>> /\ call' = [call EXCEPT !.v = "abort"]
+  \* the non-Exception unwinds the whole call -- unless it is raised while a failure report is being logged: that happens inside
+  \* `try: log_message(...) except: pass` (a bare except), which swallows it; the loop over the collected errors goes on
+  /\ LET R == {i \in DOMAIN work : work[i].t = "report"} IN
+       IF R = {} THEN work' = <<>> /\ call' = [call EXCEPT !.v = "abort"]
+       ELSE work' = SubSeq(work, 1, CHOOSE i \in R : \A j \in R : j <= i) /\ UNCHANGED call
   /\ dev' = dev \cup {"Abort"}
   /\ hist' = Append(hist, [op |-> "Deliver", d |-> d, raise |-> TRUE, abort |-> TRUE])
   /\ nfaults' = nfaults + 1
